@@ -121,6 +121,30 @@ def harnesses(t):
     return hs
 
 
+def modes_concrete(run):
+    """the 2 x 2 x 2 ways of asking, real engine, on listings whose findings are unusual: a finding across '(bad)' bytes, more than
+    1000 findings, a finding at the very first instruction"""
+    from vlib import jasmapi
+
+    L1 = "".join(f"    {a}:\t{b:<21}\t{t}\n" for a, b, t in [("1000", "55", "push   %rbp"), ("1001", "90", "nop"), ("1002", "5d", "pop    %rbp"), ("1003", "55", "push   %rbp"), ("1004", "ff", "(bad)"), ("1005", "5d", "pop    %rbp"), ("1006", "c3", "ret")])
+    L2 = "".join(f"    {0x2000 + 5 * i:x}:\te8 00 00 00 00       \tcall   3000 <f>\n" for i in range(1203))
+    for nm, doc, listing, n_want in (("finding across (bad)", {"pattern": ["push", {"$not": ["call"]}, "pop"]}, L1, 2), ("1203 findings", {"pattern": ["call"]}, L2, 1203)):
+        res = {}
+        for ret in ("bool", "list"):
+            for allm in (False, True):
+                for addr in (False, True):
+                    res[(ret, allm, addr)] = jasmapi.run_pipeline(doc, listing, None, all_matches=allm, only_addr=addr, ret=ret)
+        run.count("traces_validated_against_impl")
+        full, addrs = res[("list", True, False)], res[("list", True, True)]
+        ok = len(full) == n_want and addrs == [x.split("::", 1)[0] for x in full]
+        for addr in (False, True):
+            ok = ok and res[("list", False, addr)] == res[("list", True, addr)][:1]
+            for allm in (False, True):
+                ok = ok and res[("bool", allm, addr)] is (len(res[("list", allm, addr)]) > 0)
+        if not ok:
+            run.failure("modes_agree_concrete", f"{nm}: the eight ways of asking disagree: " + ", ".join(f"{k}: {(len(v) if isinstance(v, list) else v)}" for k, v in res.items()), {"kind": "ch_none", "what": nm})
+
+
 def main(prop="C12"):
     run = Run(prop, "model_checking", "CH")
     hs = harnesses(tier())
@@ -130,6 +154,7 @@ def main(prop="C12"):
     from checks import c11
 
     c11.long_match_probe(run, key="modes_agree_long")
+    modes_concrete(run)
     cov = {
         "states": len(hs),
         "transitions": run.counts.get("harness_runs", 0),
@@ -146,6 +171,9 @@ def main(prop="C12"):
 
 
 def replay(rec):
+    if rec.get("kind") == "ch_none":
+        print("concrete mode-agreement probe: re-run ./check C12;", rec.get("what"))
+        return 1
     return ch.replay_record(rec)
 
 
